@@ -52,6 +52,8 @@ class Assembly:
         self.clients = {"c1": CertFiles("ec", "client", serial=424242, tag="one"), "c2": CertFiles("ec", "client", serial=424242, tag="two")}
         # the same look-alike, sending the ALLOWED user's (public) certificate after its own in the TLS Certificate message
         self.clients["c2+c1"] = CertFiles("ec", "client", serial=424242, tag="two", extra_chain=[self.clients["c1"]])
+        # a certificate the TLS library completes a handshake with and the certificate library cannot interpret
+        self.clients["cw"] = CertFiles("ec", "client", serial=424242, tag="w", version_four=True)
         fp1 = "sha256:" + hashlib.sha256(self.clients["c1"].der).hexdigest()
         toml = """
 [server]
@@ -206,6 +208,18 @@ def main(pid="C04", rep=None, finish=True):
                                               "%s falsified: assembled chain answered %s, specification %s, after %s" % (formula, got, la["status"], hist), None)
                                 break
                         prev = st
+                    else:
+                        # "the fingerprint of the certificate actually presented", for a certificate the server cannot
+                        # interpret: the connection may be dropped ("" - what the tree does), or the chain is consulted
+                        # with that certificate's fingerprint (not on the list: 61; any certificate will do: served or 44)
+                        # - the one thing that cannot happen is a verdict for a client that presented NO certificate (60)
+                        for pth, ok in (("prot", ("", "61")), ("any", ("", "20", "44", "51"))):
+                            got = asm.request("a", pth, "cw")
+                            steps += 1
+                            if got not in ok:
+                                rep.violation({"formula": "ConsultedWithRealIdentity", "uninterpretable_cert": True, "got": got},
+                                              "ConsultedWithRealIdentity falsified: a client presenting a certificate with X.509 version field 3 (sha256 %s) asks for %s after %s: answered %r - the verdict for a client without a certificate; the chain must see the presented certificate's fingerprint (or the connection ends unanswered)" % (
+                                                  hashlib.sha256(asm.clients["cw"].der).hexdigest()[:16], PATH[pth], hist, got), None)
                     n += 1
                     if n % 17 == 0:
                         rep.sample({"assembled_chain_history": hist})
